@@ -119,13 +119,23 @@ CHECKS.append(
               "coherence over histories.",
          note="Trusted: rustc MIR (resolved callees, argument provenance). Coherence over histories relies on C01.",
          technique="static: forwarding-wrapper rule over MIR (callee, argument provenance, guard dominance, override set)"))
+CHECKS.append(
+    dict(id="C02", level="other", engine="E1+E3",
+         text="Agreement of every comparison code path: TermKind discriminants/derived order; all ~60 PartialEq/Hash/PartialOrd/Ord "
+              "impls on Term types delegate to Term::eq/hash/cmp or are audited single-string wrappers; overrides of Term::eq/cmp/"
+              "hash are pure forwards (NsTerm::eq: prefix test AND remainder equality); default eq/cmp/hash name all five kinds and "
+              "hash reads only what eq compares; language tags compared/hashed only through LanguageTag's case-folding impls; "
+              "conversions rebuild the same kind from the matching accessor; accessor/kind consistency of all Term impls. Decides "
+              "the reduction of the laws to component orders, not the laws on values.",
+         note="Trusted: std's str/char comparison and hashing; rustc item facts (derive markers, discriminants) and MIR.",
+         technique="static: trait-impl enumeration + delegation/forwarding rules + per-kind component tables over MIR"))
 NOT_APPLICABLE = [
     dict(property_id="C17", reason="relativise/resolve inverse is an equation between runtime-computed strings "
          "(byte-offset arithmetic); no structural clause that is a genuine necessary condition without freezing the "
          "code; static analysis in reach cannot decide it"),
 ]
 # properties not yet wired in this commit are listed as not applicable *for now* by gen (see below)
-PENDING = ["C01", "C02", "C05", "C06", "C07", "C14",
+PENDING = ["C01", "C05", "C06", "C07", "C14",
            ]
 for p in PENDING:
     if p not in [c["id"] for c in CHECKS]:
